@@ -42,4 +42,6 @@ CASES = [
     ("rr-first-eligible-next", "twin", S, "        return eligible[0], {}, \"ROUND_ROBIN\"\n", "        first = eligible[0]\n        return first, {}, \"ROUND_ROBIN\"\n", None),
     ("reset-sorted-first", "twin", S, "        agent = min(q)  # deterministic\n", "        agent = min(q)\n        _ = len(q)\n", None),
     ("wall-test-local", "twin", O, "    if \"wall_ms\" in budgets and elapsed_ms >= budgets[\"wall_ms\"]:\n        return \"WALL_MS\"\n", "    wall_hit = \"wall_ms\" in budgets and elapsed_ms >= budgets[\"wall_ms\"]\n    if wall_hit:\n        return \"WALL_MS\"\n", None),
+    ("eligible-pick-through-helper", "twin", S, "        # Round-robin: take first eligible according to queue order (no rotation here)\n        return eligible[0], {}, \"ROUND_ROBIN\"\n", "        pool = {**sched, \"queue\": eligible}\n        return _pick_round_robin(pool), {}, \"ROUND_ROBIN\"\n", None),
+    ("saturated-pick-through-helper-on-whole-queue", "mutant", S, "        agent = min(q)  # deterministic\n        return agent, {}, \"RESET_CONSEC\"\n", "        return _pick_round_robin(sched), {}, \"RESET_CONSEC\"\n", "C17.ELIG"),
 ]
